@@ -4,7 +4,7 @@ from hc_oracles import transmission_oracle, crash_oracle, stall_oracle
 
 PROP = "C12"
 COQ_FILE = "props/C12.v"
-THEOREMS = ['C12_emit_packet', 'C12_pending_entries_flag', 'C12_acked_fragment_marked', 'C12_released_packet_dead', 'C12_dead_entry_not_resent', 'C12_retransmission_kept', 'C12_push_records_reference', 'C12_finalize_logs_recorded_refs', 'C12_send_stamps_epoch', 'C12_step_next_epoch', 'C12_time_sensitive_epoch', 'C12_nothing_else_leaves_the_queue', 'C12_check_push_guarantees_push']
+THEOREMS = ['C12_emit_packet', 'C12_pending_entries_flag', 'C12_acked_fragment_marked', 'C12_released_packet_dead', 'C12_dead_entry_not_resent', 'C12_retransmission_kept', 'C12_push_records_reference', 'C12_finalize_logs_recorded_refs', 'C12_send_stamps_epoch', 'C12_step_next_epoch', 'C12_time_sensitive_epoch', 'C12_nothing_else_leaves_the_queue', 'C12_check_push_guarantees_push', 'C12_flush_finishes_frames']
 USES_FLOATS = True
 NEEDS_RELEASE = False
 ASSUMPTIONS = ["proved: staleness test, resend flag, dead references are dropped without transmission (model/Sender.v, HalfConn.v); the at-most-once count over emitted frames is decided by the oracle on the implementation's decoded frames and by correspondence (partial)"]
